@@ -7,7 +7,8 @@ class of the less accurate route:
 
   (a) IGEOS_Solver vs GenEOS_Solver on ideal-gas data (state lattice of C04; all fields at lattice points farther
       than three internal cells from every discontinuity located from the fields, the reported wave pattern and wave
-      speeds, and -- on the roots / tabulated problems -- convergence of the difference under num_int_pts x4);
+      speeds; the tolerance is GenEOS's own error bar, 10 x |GenEOS(N) - GenEOS(4N)| + 2e-4 capped at 2e-2, and the
+      difference to IGEOS must shrink under the refinement -- convergence, not mere closeness);
   (b) Noh vs Cog19 (Gamma in {40, 1}) vs black-box Noh with an ideal gas, through the geometry wrappers
       (initial_conditions only) and through the general class, over six initial guesses;
   (c) Noh2 vs Noh2Cog vs Cog1(b=0, T0=e0(gamma-1)/Gamma) at time 1-t with the velocity sign flipped;
@@ -37,7 +38,7 @@ CLAIM = ("For each of the six families of route pairs named in the property ever
          "alphabets. Right level: the property is a pointwise equality between two executable routes, decided by running both.")
 LEVEL_NOTE = ("trusted: numpy, the documented parameter mappings transcribed in xpmc/x_c07_routes.py (sandwich -> rod boundary data, "
               "Noh2 -> Cog1 reduction, Kidder pins, plane embeddings); assumed: parameter values between lattice values behave like their "
-              "neighbours; general-EOS Riemann solver compared only farther than 3 internal cells from a located wave and to 4/num_int_pts")
+              "neighbours; general-EOS Riemann solver compared only farther than 3 internal cells from a located wave and to 10x its own N-vs-4N difference (+2e-4, cap 2e-2)")
 BOUND = {"quick": "K=1 on shared wrapper/sandwich parameters and Riemann states (4 pattern roots), K=2 Kenamond/BC-mirror, full products for Noh/Cog19/BBNoh and Noh2/Cog1",
          "thorough": "K=2 on shared wrapper/sandwich parameters and Riemann states, K=3 BC-mirror, full products elsewhere"}
 RULE = ("tasks = (route, pair, deviation vector); per task every lattice time; an evaluation is one public solver call; a comparison "
@@ -45,7 +46,7 @@ RULE = ("tasks = (route, pair, deviation vector); per task every lattice time; a
         "compared point; distinct by (pair, parameter vector, time and route-specific keys such as the initial guess)")
 ASSUMPTIONS = [
     "parameter values, times and points outside the alphabets are not explored",
-    "IGEOS vs GenEOS: compared at points farther than 3 GenEOS cells from every discontinuity located from IGEOS's fields, tolerance 4/num_int_pts; "
+    "IGEOS vs GenEOS: compared at points farther than 3 GenEOS cells from every discontinuity located from IGEOS's fields, tolerance min(2e-2, 10*|GenEOS(501,2001)-GenEOS(2001,8001)| + 2e-4) per field; "
     "the wave pattern / wave-speed comparison is skipped when the star pressure is within two table steps of pl or pr (zero-strength wave)",
     "black-box Noh: a Newton iteration that raises is counted (C16/C20), not judged; agreement is demanded of every solution that is returned",
     "wrapper geometry is the one its class name documents (Planar=1, Cylindrical=2, Spherical=3; Kidder74/76: geometry 3, b=3 / b=0)",
@@ -73,11 +74,9 @@ def run_task(task):
 
 def postprocess(agg, tier):
     worst = {}
-    conv = []
     for r in agg["results"]:
         for k, v in ((r or {}).get("_worst") or {}).items():
             worst[k] = max(worst.get(k, 0.0), v)
-        conv += (r or {}).get("_conv", [])
     pairs = sorted(k[5:] for k in agg["counters"] if k.startswith("pair:"))
     # coverage assertions: every route family produced comparisons, every Riemann pattern cell was compared
     need = ["IGEOS~GenEOS", "Noh~Cog19", "Noh~BBNoh", "Noh~BBNohBase", "Noh2~Noh2Cog", "Noh2~Cog1(b=0)", "PlanarSandwich~Rod1D",
@@ -92,7 +91,7 @@ def postprocess(agg, tier):
     if missing:
         agg["errors"].append({"task": {"postprocess": "coverage"}, "status": "coverage",
                               "detail": "route pairs / pattern cells that produced no comparison: %s" % missing})
-    ratio = sorted(d2 / d1 for d1, d2 in conv if d1 > 2e-5)
     return {"route_pairs_compared": len(pairs), "route_pairs": pairs, "riemann_pattern_cells": cells,
-            "measured_worst_mismatch_by_pair_excluding_recorded_defects": {k: worst[k] for k in sorted(worst)},
-            "geneos_refinements": len(conv), "geneos_refinement_ratio_min_max": [ratio[0], ratio[-1]] if ratio else None}
+            "measured_worst_mismatch_by_pair_excluding_recorded_defects": {k: worst[k] for k in sorted(worst) if worst[k] > 0},
+            "pairs_bit_identical": sorted(k for k in worst if worst[k] == 0),
+            "geneos_refinements": int(agg["counters"].get("a:refinements", 0))}
